@@ -16,7 +16,7 @@ import random
 import bharness
 from generate import (FIELD_NAMES, INT_REPRS, ODD_FIELD_NAMES, ODD_VARIANT_NAMES, SKIPPABLE, STD_TRAITS, VARIANT_NAMES,
                       ZTRAITS, chance, gen_discriminants, pick)
-from items import respell, Attr, Field, Gen, I, Ident, Item, MList, MNameValue, MPathM, P, Param, Variant, metas_body, traits_body
+from items import respell, regroup, Attr, Field, Gen, I, Ident, Item, MList, MNameValue, MPathM, P, Param, Variant, metas_body, traits_body
 
 SUPER = {'Ord': ['Eq', 'PartialOrd', 'PartialEq'], 'PartialOrd': ['PartialEq'], 'Eq': ['PartialEq'], 'Copy': ['Clone']}
 
@@ -247,6 +247,8 @@ def gen(rng, zero=False, focus=None, negative=False):
     it0.vis = pick(rng, ['', 'pub '])
     if negative and not getattr(it0, 'expect_error', None):
         return None
+    if chance(rng, 0.3):
+        it0 = regroup(rng, it0)
     return respell(rng, it0)
 
 
